@@ -22,9 +22,9 @@ import (
 )
 
 type ctrOp struct {
-	inc        bool
-	call, ret  int
-	val        uint64 // value read (Write)
+	inc       bool
+	call, ret int
+	val       uint64 // value read (Write)
 }
 
 type ctrWorld struct {
@@ -217,10 +217,10 @@ func (w *world) promCounter(name string, labels map[string]string) float64 {
 }
 
 type c19mWorld struct {
-	w     *world
-	ev, n int
-	log   string
-	prom  float64
+	w        *world
+	ev, n    int
+	log      string
+	prom     float64
 	promName string
 }
 
@@ -450,8 +450,8 @@ func init() {
 			day := 24 * time.Hour
 			// requests whose metrics updates coincide with the ticker's printMetrics/zeroMetrics
 			p := w.addProxy(NATUnrestricted, "standalone", 0, day-10*time.Second, ansNever) // idle poll ends exactly at 24 h
-			c := w.addClient("restricted", "", day, viaIPC)                                  // denied exactly at 24 h
-			p2 := w.addProxy(NATUnrestricted, "webext", 0, day, ansPrompt)                   // polls exactly at 24 h
+			c := w.addClient("restricted", "", day, viaIPC)                                 // denied exactly at 24 h
+			p2 := w.addProxy(NATUnrestricted, "webext", 0, day, ansPrompt)                  // polls exactly at 24 h
 			_ = p
 			_ = c
 			_ = p2
